@@ -16,6 +16,7 @@ def get(ctx, rep=None):
         gaps = sorted(n for n in pa.unmodelled if n.startswith(('std::', 'core::', 'alloc::')) or n.startswith('<') and
                       (' as std::' in n or ' as core::' in n) and 'chrono::' not in n)
         if gaps:
+            rep.unreliable = f'library calls without a model in the policy layer: {gaps[:3]}'
             rep.ob('engine', 'unmodelled-library-calls-in-policy-layer', None,
                    f'{len(gaps)} library function(s) without a model were reached: {gaps[:4]} - their effects are not decided')
     return pa
